@@ -17,7 +17,8 @@ Inductive entry : Type :=
 (* what a user does to the instance BETWEEN solves (histories): `model.V<i> = [...]` (whole-series list assignment: the
    series is replaced), and model = model.copy() / model.reindex(<the same span>) (a new instance with equal contents:
    the identity at the level of values, statuses, iteration counts and Trace contents) *)
-| ESetSeries (i : nat) (row : list float) | ENoop.
+| ESetSeries (i : nat) (row : list float) | ENoop
+| EAddSeries (row : list float).                 (* model.add_variable(<new name>, ...): one more series, appended to `names` *)
 Record call := mkCall { k_entry : entry; k_opts : fopts; k_targ : targ; k_reset : bool }.
 Inductive cres : Type := RBool (o : outcome bool) | RSolve (o : outcome (sresult Z)) | RUnit (o : outcome unit).
 Definition unit_res (e : option exn) : cres := match e with None => RUnit (Ret tt) | Some x => RUnit (Raise x) end.
@@ -50,6 +51,7 @@ Definition f_call (sc : scripts) (cfg : tcfg) (span : list Z) (d : mdesc) (c : c
       ((s, tr'), unit_res e)
   | ESetSeries i row => ((with_vals float s (upd i row (vals_of s)) (log s), tr), RUnit (Ret tt))
   | ENoop => ((s, tr), RUnit (Ret tt))
+  | EAddSeries row => ((with_vals float s (vals_of s ++ [row]) (log s), tr), RUnit (Ret tt))
   end.
 
 (* the same call without the keywords (the untraced twin): Solver.solve_t_M, SolveAll.solve_period_M, SolveAll.solve_M *)
@@ -69,6 +71,7 @@ Definition f_plain_call (sc : scripts) (span : list Z) (d : mdesc) (c : call) (s
   | ETraceT _ _ | ETracePeriod _ _ => (s, RUnit (Ret tt))       (* the twin is left alone: a snapshot method is not a solve *)
   | ESetSeries i row => (with_vals float s (upd i row (vals_of s)) (log s), RUnit (Ret tt))
   | ENoop => (s, RUnit (Ret tt))
+  | EAddSeries row => (with_vals float s (vals_of s ++ [row]) (log s), RUnit (Ret tt))
   end.
 
 (* ---- comparison with the implementation's observation ---- *)
